@@ -766,7 +766,26 @@ impl Prop for C20 {
         // expired deadline, an idle wait, then a chord): what zippychord believes about held
         // modifiers must survive its resets
         let mut long_mod: Option<(&str, u64)> = None;
+        // likewise an ordinary key that is in no top-level chord but may occur in expansions: typed
+        // once and then simply kept down over the following segments (resets, idle waits, chords
+        // whose expansion contains it: it is then typed by releasing and pressing it again)
+        let mut long_key: Option<(char, u64)> = None;
         for _ in 0..nseg {
+            if long_key.is_none() && long_mod.is_none() && r.chance(100) {
+                let k = *r.pick(&neutral);
+                ops.push(Op::Press(code(k)));
+                ops.push(Op::Gap(r.range(1, 5) as u32));
+                long_key = Some((k, r.range(1, 3)));
+            } else if let Some((k, left)) = long_key {
+                if left == 0 {
+                    ops.push(Op::Gap(1));
+                    ops.push(Op::Release(code(k)));
+                    ops.push(Op::Gap(r.range(1, 6) as u32));
+                    long_key = None;
+                } else {
+                    long_key = Some((k, left - 1));
+                }
+            }
             if long_mod.is_none() && r.chance(120) {
                 let m = *r.pick(&["lsft", "rsft", "ralt"]);
                 ops.push(Op::Press(oscode_of(m)));
@@ -915,6 +934,10 @@ impl Prop for C20 {
         if let Some((m, _)) = long_mod {
             ops.push(Op::Gap(1));
             ops.push(Op::Release(oscode_of(m)));
+        }
+        if let Some((k, _)) = long_key {
+            ops.push(Op::Gap(1));
+            ops.push(Op::Release(code(k)));
         }
         ops.push(Op::Gap(30));
         case.ops = ops;
